@@ -15,7 +15,7 @@ class S(vlib.Spec):
     code_names = {
         1: "model and implementation disagree",
         9: "model or specification closure out of fuel",
-        2: "a definition the specification needs is missing from the trimmed program",
+        2: "a definition or include the specification needs is missing from the trimmed program",
         3: "the trimmed program contains a struct-like nothing needs",
         4: "the trimmed program contains an include nothing needs",
         5: "the trimmed program does not pass semantic analysis (or a reference dangles)",
